@@ -266,6 +266,8 @@ K2_FAMILY = [
     ("union-str", [_sd("U", [_fd("a", _sc("uint16")), _fd("b", _arr(_sc("uint8"), ["fixed", 2]))], "union"), _sd("Root", [_fd("u", {"k": "ref", "n": "U"}), _fd("s", _arr(_sc("char"), ["null"]))])], ["1234616200", "fedc78797a00"], "uint32"),
     ("enum-ptr", [{"k": "enumdef", "n": "E", "kind": "enum", "base": "uint8", "members": [["A", 0], ["B", 1], ["C", 7]]}, _sd("Root", [_fd("e", {"k": "e", "n": "E"}), _fd("es", _arr({"k": "e", "n": "E"}, ["fixed", 2])), _fd("p", {"k": "p", "t": _sc("uint16")}), _fd("t", _sc("uint16"))])], ["0107000434120000", "07000905cdab0000"], "uint8"),
     ("two-counts", [_sd("Root", [_fd("n", _sc("uint8")), _fd("m", _sc("uint8")), _fd("x", _arr(_sc("uint16"), _SUM)), _fd("w", _arr(_sc("wchar"), ["null"]))])], ["01010100020041000000", "0200030004004200430000 00".replace(" ", "")], "uint32"),
+    # rows whose length is data-dependent (the count expression hangs off the shared ROW type) and a counted array of terminated strings
+    ("rows", [_sd("Root", [_fd("n", _sc("uint8")), _fd("rows", _arr(_arr(_sc("uint8"), _IDN("n")), ["fixed", 3])), _fd("names", _arr(_arr(_sc("char"), ["null"]), _IDN("n"))), _fd("t", _sc("uint8"))])], ["01111213610077", "02212223242526414200430088"], "uint32"),
 ]
 
 
@@ -300,6 +302,6 @@ def stages(tier):
         HypStage("random-k4", lambda: conc_case(with_schedule=True), examples=200 if q else 3000, shards=4 if q else 8),
         HypStage("k1-cold", lambda: conc_case(with_schedule="cold"), examples=1 if q else 10, shards=4 if q else 8),
         HypStage("k1-opcode", lambda: conc_case(with_schedule="opcodes"), examples=1 if q else 6, shards=4 if q else 16),
-        EnumStage("k1-cold-family", cold_family_cases, shards=8, scope="every single pre-emption at source-line granularity of the FIRST concurrent use of freshly loaded types: the six definitions of K2_FAMILY x both readers x both byte orders"),
-        EnumStage("k2-exhaustive", k2_cases(tier), shards=16, scope="every two-preemption schedule 0->1->0 at source-line granularity of the fixed definition family (K2_FAMILY: %s) x both readers, two threads" % ("first member" if q else "all six members x both byte orders")),
+        EnumStage("k1-cold-family", cold_family_cases, shards=8, scope="every single pre-emption at source-line granularity of the FIRST concurrent use of freshly loaded types: the seven definitions of K2_FAMILY x both readers x both byte orders"),
+        EnumStage("k2-exhaustive", k2_cases(tier), shards=16, scope="every two-preemption schedule 0->1->0 at source-line granularity of the fixed definition family (K2_FAMILY: %s) x both readers, two threads" % ("first member" if q else "all seven members x both byte orders")),
     ]
